@@ -119,8 +119,8 @@ func init() {
 			return setOrErr(shape.GetExtendedSpatialIdsOnLine(s, e, atoi(a[6]), atoi(a[7])))
 		}
 	}
-	op("line", lineOp(false))   // sLon sLat sAlt eLon eLat eAlt h v table
-	op("linesp", lineOp(true))  // sLon sLat sAlt eLon eLat eAlt z table
+	op("line", lineOp(false))  // sLon sLat sAlt eLon eLat eAlt h v table
+	op("linesp", lineOp(true)) // sLon sLat sAlt eLon eLat eAlt z table
 
 	// a segment spanning a few voxels per axis at zooms (h, v)
 	genSeg := func(h, v int64) (float64, float64, float64, float64, float64, float64) {
@@ -208,6 +208,57 @@ func init() {
 				lat2, alt2 = lat, alt
 				if rng.Intn(2) == 0 {
 					lon, lon2 = lon2, lon
+				}
+			}
+			if rng.Intn(10) == 0 {
+				// a node whose extent on one or more axes is BIT FOR BIT the stop threshold of that axis (times 1, 2 or 4: the
+				// bisection halves exactly) while the other axes are below theirs, the segment crossing a voxel border on each
+				// axis off-centre — "stop below the threshold" and "stop at or below it" differ exactly here
+				h = int64(3 + rng.Intn(30))
+				v = randZoom()
+				if sp {
+					v = h
+				}
+				tLon, tLat, tAlt := shape.LonMinima, shape.LatMinima, shape.AltMinima
+				if h >= 31 {
+					tLon, tLat = shape.HightZoomLonMinima, shape.HightZoomLatMinima
+				}
+				if v >= 34 {
+					tAlt = shape.HightZoomAltMinima
+				}
+				mask := 1 + rng.Intn(7)
+				span := func(T, c float64, exact bool) (float64, float64) {
+					if !exact {
+						return c - rng.Float64()*T*0.45, c + rng.Float64()*T*0.45
+					}
+					D := T * float64(int(1)<<uint(rng.Intn(3)))
+					for try := 0; try < 20; try++ {
+						a := c - D*float64(rng.Intn(9))/8
+						if b := a + D; b-a == D {
+							return a, b
+						}
+					}
+					return 0, D
+				}
+				wLon := 360 / math.Pow(2, float64(h))
+				cLon := math.Floor(rng.Float64()*math.Pow(2, float64(h)))*wLon - 180
+				if mask&1 != 0 || rng.Intn(3) == 0 {
+					cLon = 0
+				}
+				wAlt := math.Pow(2, float64(25-v))
+				cAlt := float64(rng.Intn(9)-4) * wAlt
+				if mask&4 != 0 && rng.Intn(4) != 0 {
+					cAlt = 0
+				}
+				cLat := 0.0
+				if mask&2 == 0 && rng.Intn(2) == 0 {
+					cLat = rng.Float64()*160 - 80
+				}
+				lon, lon2 = span(tLon, cLon, mask&1 != 0)
+				lat, lat2 = span(tLat, cLat, mask&2 != 0)
+				alt, alt2 = span(tAlt, cAlt, mask&4 != 0)
+				if rng.Intn(2) == 0 {
+					lon, lat, alt, lon2, lat2, alt2 = lon2, lat2, alt2, lon, lat, alt
 				}
 			}
 			args := []string{fbits(lon), fbits(lat), fbits(alt), fbits(lon2), fbits(lat2), fbits(alt2)}
